@@ -155,6 +155,10 @@ def gen_case(rng, tier, i):
     order = ["face", "xc", "yc"] + [d for d, _ in extra]
     rng.shuffle(order)
     G = [[dyadic(rng, -16, 16, 1) for _ in range(Ky * N)] for _ in range(Kx * N)]
+    if rng.random() < 0.12:
+        # missing values (land), anywhere - also in the rows / columns that touch a junction
+        for _ in range(rng.randint(1, 4)):
+            G[rng.randrange(Kx * N)][rng.randrange(Ky * N)] = None
     return {"Kx": Kx, "Ky": Ky, "N": N, "per": per, "orient": orient, "extra": extra, "order": order, "G": G,
             "func": rng.choice(["diff", "interp", "min", "max"]), "axis": rng.choice(["X", "Y"]),
             "to": rng.choice(["left", "right"]), "rule": rng.choice(["fill", "extend", "periodic"]),
@@ -183,8 +187,10 @@ def oracle(case, G):
     lo, hi = (1, 0) if case["to"] == "left" else (0, 1)
     nf = Kx * Ky
     out = np.zeros((nf, N, N))
+    def nanprop(f):
+        return lambda l, r: float("nan") if (l != l or r != r) else f(l, r)     # a missing neighbour gives a missing value
     op = {"diff": lambda l, r: r - l, "interp": lambda l, r: (l + r) / 2.0,
-          "min": min, "max": max}[case["func"]]
+          "min": nanprop(min), "max": nanprop(max)}[case["func"]]
     size = (Kx * N, Ky * N)
     for f in range(nf):
         I, J = divmod(f, Ky)
@@ -228,7 +234,7 @@ def oracle(case, G):
 def eval_case(case, drv):
     Kx, Ky, N = case["Kx"], case["Ky"], case["N"]
     nf = Kx * Ky
-    G = np.array(case["G"], dtype=float)
+    G = np.array([[np.nan if v is None else v for v in row] for row in case["G"]], dtype=float)
     tbl = table_of(Kx, Ky, case["per"], [tuple(o) for o in case["orient"]])
     extra = [tuple(e) for e in case["extra"]]
     ds = fg.dataset(nf, N, extra)
@@ -260,11 +266,17 @@ def eval_case(case, drv):
     line = (f"c03op {case['func']} center {case['to']} {case['axis']} X Y {fg.enc_table(tbl)} "
             f"{len(pad_axes)} {' '.join(pad_axes)} {rule} {enc_rat(fill)} {rule} {enc_rat(fill)} N "
             f"{nf} {R} {fg.enc_faces(data4)}")
-    ans = drv.ask(line)
-    if not ans.startswith("ok"):
-        return {"corr_ok": False, "prop_ok": True, "branch": "model-refused", "detail": {"model": ans[:100]}}
-    model = fg.dec_faces(ans, nf, R)
-    corr_ok = got.shape == model.shape and bool((got == model).all())
+    has_nan = bool(np.isnan(G).any())
+    if has_nan:
+        # the Lean model computes in exact rationals and has no missing values: such cases are judged by the
+        # undivided-field oracle (IEEE semantics) alone
+        corr_ok = True
+    else:
+        ans = drv.ask(line)
+        if not ans.startswith("ok"):
+            return {"corr_ok": False, "prop_ok": True, "branch": "model-refused", "detail": {"model": ans[:100]}}
+        model = fg.dec_faces(ans, nf, R)
+        corr_ok = got.shape == model.shape and bool((got == model).all())
     want = fg.exact(oracle(case, G))
     prop_ok = True
     bad = []
@@ -279,8 +291,8 @@ def eval_case(case, drv):
     detail = None
     if not (corr_ok and prop_ok):
         detail = {"kinds": kinds, "bad_vs_oracle": bad, "table": tbl}
-    return {"corr_ok": corr_ok, "prop_ok": prop_ok, "branch": f"{case['func']}:{','.join(kinds) or 'nolinks'}",
-            "detail": detail}
+    return {"corr_ok": corr_ok, "prop_ok": prop_ok,
+            "branch": f"{case['func']}:{','.join(kinds) or 'nolinks'}" + (":missing-values" if has_nan else ""), "detail": detail}
 
 
 def nontrivial(case, verdict):
